@@ -123,12 +123,12 @@ class Pseudo2NetCDF:
             typecode = pvar[...].dtype.char
 
         create_variable_kwds = self.create_variable_kwds.copy()
-        if hasattr(pvar, 'missing_value'):
+        if hasattr(pvar, '_FillValue'):
+            create_variable_kwds['fill_value'] = pvar._FillValue
+        elif hasattr(pvar, 'missing_value'):
             create_variable_kwds['fill_value'] = pvar.missing_value
         elif hasattr(pvar, 'fill_value'):
             create_variable_kwds['fill_value'] = pvar.fill_value
-        elif hasattr(pvar, '_FillValue'):
-            create_variable_kwds['fill_value'] = pvar._FillValue
 
         nvar = nfile.createVariable(
             k, typecode, pvar.dimensions, **create_variable_kwds)
@@ -153,8 +153,10 @@ class Pseudo2NetCDF:
                 pvar = pvar[...]
             nvar[...] = pvar
         elif isinstance(pvar[...], MaskedArray):
-            nvar[:] = pvar[...].filled(getattr(nvar, 'fill_value', getattr(
-                nvar, '_FillValue', getattr(pvar, 'missing_value', -9999))))
+            # fill with the value the output declares as its fill (that is
+            # what a reader masks on), then fall back as before
+            nvar[:] = pvar[...].filled(getattr(nvar, '_FillValue', getattr(
+                nvar, 'fill_value', getattr(pvar, 'missing_value', -9999))))
         else:
             nvar[:] = pvar[...]
 
